@@ -99,9 +99,13 @@ impl Ty {
             Ty::Arr3 => format!("[k0 % 13, {p}, {i}]"),
         }
     }
-    /// `u64` digest of the capture; `n` names a `&T` / `&mut T` inside the body
-    fn read(self, n: &str) -> String {
+    /// `u64` digest of the capture; `n` names a `&T` / `&mut T` inside the body. Growing (mutable)
+    /// containers are digested in O(1) - length and last element - their full content is compared
+    /// at the end anyway.
+    fn read(self, n: &str, mutable: bool) -> String {
         match self {
+            Ty::VecU64 if mutable => format!("{n}.last().copied().unwrap_or(0).wrapping_mul(131).wrapping_add({n}.len() as u64)"),
+            Ty::Str if mutable => format!("({n}.as_bytes().last().copied().unwrap_or(0) as u64).wrapping_mul(131).wrapping_add({n}.len() as u64)"),
             Ty::U64 => format!("*{n}"),
             Ty::VecU64 => format!("{n}.iter().fold({n}.len() as u64, |acc, x| acc.wrapping_mul(131).wrapping_add(*x))"),
             Ty::Str => format!("{n}.bytes().fold({n}.len() as u64, |acc, x| acc.wrapping_mul(131).wrapping_add(x as u64))"),
@@ -276,6 +280,8 @@ impl Shape {
             l.push(format!("let v{i}: u64 = a{i} as u64;"));
         }
         let vs: Vec<String> = (0..k).map(|i| format!("v{i}")).collect();
+        // call budget: a runaway recursion becomes a panic (caught in main) instead of a stack overflow
+        l.insert(0, "crate::support::tick();".to_string());
         // trace: (call index, arguments), flattened
         if let Some(t) = caps.iter().find(|c| c.is_trace) {
             l.push(format!("let call_index = {}.len() as u64;", t.name));
@@ -292,7 +298,7 @@ impl Shape {
             l.push(format!("h = h.wrapping_mul(3).wrapping_add({v});"));
         }
         for c in &caps {
-            let read = if c.is_trace { format!("{}.len() as u64", c.name) } else { c.ty.read(&c.name) };
+            let read = if c.is_trace { format!("{}.len() as u64", c.name) } else { c.ty.read(&c.name, c.kind == Cap::M) };
             l.push(format!("h = h.wrapping_mul({}).wrapping_add({});", c.prime, read));
             if c.kind == Cap::M && !c.is_trace {
                 l.push(c.ty.mutate(&c.name, c.prime));
@@ -617,6 +623,20 @@ thread_local! {
     /// can reach a thread-local just like the hand-written twin
     static TRACE: RefCell<Vec<u64>> = RefCell::new(Vec::new());
     static VERBOSE: Cell<bool> = Cell::new(false);
+    static CALLS: Cell<u64> = Cell::new(0);
+}
+
+/// far above what any generated body needs (< 500 calls per run); `trace_take` resets the budget
+pub const CALL_BUDGET: u64 = 5_000;
+
+pub fn tick() {
+    let n = CALLS.with(|c| {
+        c.set(c.get() + 1);
+        c.get()
+    });
+    if n > CALL_BUDGET {
+        panic!("call budget exceeded: more than {} recursive calls in one run (runaway recursion)", CALL_BUDGET);
+    }
 }
 
 pub fn trace(vals: &[u64]) {
@@ -628,7 +648,9 @@ pub fn trace(vals: &[u64]) {
     })
 }
 
+/// returns the thread-local trace, clears it and resets the call budget
 pub fn trace_take() -> Vec<u64> {
+    CALLS.with(|c| c.set(0));
     TRACE.with(|t| std::mem::take(&mut *t.borrow_mut()))
 }
 
@@ -696,6 +718,17 @@ fn inputs(seed: u64) -> Vec<([u64; 4], u64)> {
 }
 
 fn main() {
+    // the call budget bounds the depth; 5000 unoptimised frames need more than the default stack
+    let code = std::thread::Builder::new()
+        .stack_size(1 << 30)
+        .spawn(real_main)
+        .expect("spawn")
+        .join()
+        .unwrap_or(3);
+    std::process::exit(code);
+}
+
+fn real_main() -> i32 {
     let args: Vec<String> = std::env::args().collect();
     let mut seed = 1u64;
     let mut start = 0usize;
@@ -766,7 +799,11 @@ fn main() {
         }
     }
     println!("SUMMARY shapes={} comparisons={} failures={} calls={}", shapes, comparisons, failures, calls);
-    std::process::exit(if failures == 0 { 0 } else { 1 });
+    if failures == 0 {
+        0
+    } else {
+        1
+    }
 }
 "#;
 
